@@ -308,6 +308,13 @@ def module_aliases(data):
     items = {i for i in items if i and not i.startswith("<")}
     types = {re.sub(r"<.*", "", a["path"]) for a in data.get("adts", [])} | {t["path"] for t in data.get("traits", [])}
     aliases = {}
+    # only paths that were items of the pinned tree can be the *pinned* side of a move (a string in a rule source that
+    # merely looks like a path must never rename anything)
+    pinned = None
+    pf = os.path.join(os.path.dirname(os.path.abspath(__file__)), "pinned_items.txt")
+    if os.path.exists(pf):
+        with open(pf) as fh:
+            pinned = {l.strip() for l in fh if l.strip()}
     for a in anchor_paths():
         segs = a.split("::")
         # the type (or free function) part of the anchor: drop a trailing method segment when the one before is a type
@@ -315,6 +322,8 @@ def module_aliases(data):
         if len(segs) >= 3 and segs[-2][:1].isupper():
             head = "::".join(segs[:-1])
         if head in items or any(i.startswith(head + "::") for i in items):
+            continue
+        if pinned is not None and head not in pinned and not any(i.startswith(head + "::") for i in pinned):
             continue
         name = head.split("::")[-1]
         pool = types if name[:1].isupper() else items
